@@ -200,7 +200,7 @@ DRAWS = {'low': lambda r: (lambda lo, hi, k: [lo] * k), 'high': lambda r: (lambd
          'rand': lambda r: (lambda lo, hi, k: [r.uniform(lo, hi) for _ in range(k)])}
 
 
-def space_check(n, d, lb, ub, na, mode, raw, r):
+def space_check(n, d, lb, ub, na, mode, raw, r, int_pos=False):
     """Construct a HyperSpace (scripted uniform draws), overwrite the positions with `raw`, enforce the limits."""
     msg = None
     with hlib.ScriptedUniform(DRAWS[mode](r)):
@@ -209,8 +209,11 @@ def space_check(n, d, lb, ub, na, mode, raw, r):
         if ag.position.shape != (n, d) or not in_unit(ag.position):
             msg = 'a freshly initialised agent is outside the unit box: %r' % ag.position.tolist()
     for ag, p in zip(s.agents, raw):
-        ag.position = np.array(p, dtype=float)
-    s.check_limits()
+        ag.position = np.array(p, dtype=int if int_pos else float)     # int: a user seeding agents at integer corners
+    try:
+        s.check_limits()
+    except Exception as ex:  # noqa: BLE001
+        msg = msg or 'check_limits raised %s on %s positions: %s' % (type(ex).__name__, 'integer-dtype' if int_pos else 'float', str(ex)[:120])
     for ag, p in zip(s.agents, raw):
         if not in_unit(ag.position):
             msg = msg or 'after check_limits an agent is outside the unit box: %r' % ag.position.tolist()
@@ -234,8 +237,11 @@ def space_cases():
         mode = r.choice(['low', 'high', 'rand'])
         raw = [[[r.choice([-INF, INF, -1e308, 1e308, -5e-324, -0.0, 0.0, 1.0, nextafter(1.0, 2.0), r.uniform(-3, 4),
                            r.uniform(0, 1), float(lb[j]), float(ub[j])]) for _ in range(d)] for j in range(n)] for _ in range(na)]
-        msg = space_check(n, d, lb, ub, na, mode, raw, r)
-        res.append({'n': n, 'd': d, 'na': na, 'bounds': bc, 'lb': [key(v) for v in lb], 'ub': [key(v) for v in ub], 'draw': mode,
+        int_pos = i % 5 == 4
+        if int_pos:
+            raw = [[[float(r.choice([-3, -1, 0, 0, 1, 1, 2, 5])) for _ in range(d)] for j in range(n)] for _ in range(na)]
+        msg = space_check(n, d, lb, ub, na, mode, raw, r, int_pos)
+        res.append({'int': int_pos, 'n': n, 'd': d, 'na': na, 'bounds': bc, 'lb': [key(v) for v in lb], 'ub': [key(v) for v in ub], 'draw': mode,
                     'raw': [[[key(v) for v in row] for row in p] for p in raw], 'oracle': msg})
     return res
 
@@ -343,12 +349,109 @@ def args_cases():
     return res
 
 
+# ------------------------------------------------------------------ histories: other spaces in the same process
+
+HIST_OPTS = [('hs', 'HS'), ('sa', 'SA'), ('bha', 'BHA'), ('abc', 'ABC'), ('cs', 'CS'), ('fpa', 'FPA'), ('ba', 'BA'), ('ihs', 'IHS')]
+HIST_BOXES = [(-10.0, 10.0), (50.0, 60.0), (-1e6, -5e5), (0.25, 0.75), (-3.0, 0.5)]
+
+
+def history_check(case):
+    """A HyperSpace must keep its agents in the unit box whatever else was built or run in the process.
+    order 'search-first' / 'tree-first': a SearchSpace / TreeSpace with the same n_variables and a non-unit box is built
+    (and a SearchSpace optionally optimised) before the HyperSpace; 'hyper-first': the HyperSpace is built, then a
+    SearchSpace, then the HyperSpace is used.  -> (key, message) or None"""
+    import importlib
+    from opytimizer import Opytimizer
+    from opytimizer.core.function import Function
+    from opytimizer.spaces.search import SearchSpace
+    from opytimizer.spaces.tree import TreeSpace
+    n, d = case['n'], case['d']
+    lb, ub = [float(v) for v in case['lb']], [float(v) for v in case['ub']]
+    np.random.seed(case['np_seed'])
+    rr = hlib.rng('hist%d' % case['np_seed'])
+
+    def other():
+        if case['order'] == 'tree-first':
+            return TreeSpace(n_trees=2, n_terminals=2, n_variables=n, n_iterations=1, min_depth=1, max_depth=2,
+                             functions=['SUM', 'SUB'], lower_bound=lb, upper_bound=ub)
+        o = SearchSpace(n_agents=3, n_variables=n, n_iterations=2, lower_bound=lb, upper_bound=ub)
+        if case['run_other']:
+            from opytimizer.optimizers.pso import PSO
+            Opytimizer(space=o, optimizer=PSO(), function=Function(pointer=lambda x: float(np.sum(np.asarray(x) ** 2)))).start()
+        return o
+
+    def hyper():
+        return HyperSpace(n_agents=4, n_variables=n, n_dimensions=d, n_iterations=5, lower_bound=lb, upper_bound=ub)
+
+    if case['order'] == 'hyper-first':
+        s = hyper()
+        o = other()
+    else:
+        o = other()
+        s = hyper()
+    mine = list(s.agents) + [s.best_agent]
+    theirs = list(o.agents) + [o.best_agent] + list(getattr(o, 'terminals', []))
+    for i, ag in enumerate(mine):
+        if not (np.array_equal(np.asarray(ag.lb, dtype=float), np.zeros(n)) and np.array_equal(np.asarray(ag.ub, dtype=float), np.ones(n))):
+            return ('hyper:history:agent-bounds', 'agent %d of the HyperSpace has bounds lb=%r ub=%r instead of zeros/ones (%s, other box [%r, %r])'
+                    % (i, np.asarray(ag.lb).tolist(), np.asarray(ag.ub).tolist(), case['order'], lb[0], ub[0]))
+    arrs = [(('hyper agent %d' % i), a) for i, ag in enumerate(mine) for a in (ag.lb, ag.ub)]
+    oarrs = [(('other-space agent %d' % i), a) for i, ag in enumerate(theirs) for a in (ag.lb, ag.ub)]
+    for i, (na, a) in enumerate(arrs):
+        for (nb, b) in arrs[i + 1:] + oarrs:
+            if np.shares_memory(a, b):
+                return ('hyper:history:shared-bounds', 'bound arrays of %s and %s share memory (%s)' % (na, nb, case['order']))
+    for i, ag in enumerate(s.agents):
+        keep = ag.position.copy()
+        ag.position = np.array([[rr.choice([-2.0, -0.5, 1.5, 3.0, 7.0, 0.25, 1.0, 0.0, lb[j], ub[j]]) for _ in range(d)] for j in range(n)])
+        probe = ag.position.copy()
+        ag.check_limits()
+        if not in_unit(ag.position):
+            return ('hyper:history:agent-check-limits', 'agent.check_limits() of a HyperSpace agent maps %r to %r, outside the unit box (%s)'
+                    % (probe.tolist(), ag.position.tolist(), case['order']))
+        ag.position = keep
+    mod, cls = [m for m in HIST_OPTS if m[1] == case['optimizer']][0]
+    opt = getattr(importlib.import_module('opytimizer.optimizers.' + mod), cls)()
+    seen = {'n': 0, 'bad': None}
+    try:
+        Opytimizer(space=s, optimizer=opt, function=Function(pointer=make_objective(lb, ub, seen))).start()
+    except Exception as ex:  # noqa: BLE001
+        seen['bad'] = seen['bad'] or 'task raised %s: %s' % (type(ex).__name__, str(ex)[:120])
+    for ag in s.agents:
+        if not in_unit(ag.position):
+            seen['bad'] = seen['bad'] or 'an agent ends the task outside the unit box: %r' % ag.position.tolist()
+    case['evaluations'] = seen['n']
+    if seen['bad']:
+        return ('hyper:history:run:%s' % cls, '%s on a HyperSpace (%s): %s' % (cls, case['order'], seen['bad']))
+    return None
+
+
+def history_cases():
+    r = hlib.rng('c13hist')
+    res = []
+    reps = 1 if hlib.QUICK else 10
+    i = 0
+    for _ in range(reps):
+        for order in ('search-first', 'tree-first', 'hyper-first'):
+            for (mod, cls) in HIST_OPTS:
+                n = 1 + i % 4
+                lo, hi = HIST_BOXES[i % len(HIST_BOXES)]
+                case = {'order': order, 'optimizer': cls, 'n': n, 'd': 1 + (i * 7) % 4, 'lb': [lo] * n, 'ub': [hi] * n,
+                        'run_other': i % 2 == 0, 'np_seed': (hlib.SEED * 100003 + 7919 * i) % (2 ** 32)}
+                i += 1
+                bad = history_check(case)
+                case.update({'key': bad[0] if bad else None, 'oracle': bad[1] if bad else None})
+                res.append(case)
+    return res
+
+
 def float_ratio(v):
     nn, dd = float(v).as_integer_ratio()
     return [str(nn), str(dd)]
 
 
 def main():
+    history = history_cases()       # first: everything below then also runs after other spaces were built
     cases, r = span_cases()
     res = {'span_cases': 0, 'nontrivial': 0, 'fails': [], 'dist': {}, 'coq': [], 'known_hits': {}}
     pool = []
@@ -384,6 +487,7 @@ def main():
         if cnt.get(c['cls'], 0) < per and len(res['coq']) < want:
             cnt[c['cls']] = cnt.get(c['cls'], 0) + 1
             res['coq'].append(c)
+    res['history'] = history
     res['args'] = args_cases()
     res['space'] = space_cases()
     res['runs'] = run_cases()
